@@ -3,9 +3,9 @@ CONSTANTS
   BUF = 32
   MaxLines = 4
   LimitN = 5
-  MaxFds = 0
+  MaxFds = 2
   Guided = TRUE
-  TSet = {1, 2, 5, 8, 10, 12, 14, 15, 19, 16, 21, 22, 23}
+  TSet = {1, 2, 5, 8, 14, 21, 22}
 INVARIANTS Refines StructOK FreshAfterError BodyBound ContinueRule FilesOrdered AttachRule Witnesses
 PROPERTIES EmptyReadInert
 CHECK_DEADLOCK FALSE
